@@ -174,7 +174,9 @@ pub fn render(toks: &[Value], kwcase: u32, sep: u32, sp: u32) -> String {
             1 => out.push('\n'),
             2 => { out.push_str(if stmt_end { " \t\n\n" } else { "  \t " }); }
             3 => { if stmt_end { out.push_str(" # end of statement ; MACRO x\n"); } else { out.push(' '); } }
-            _ => { if stmt_end || i % 7 == 3 { out.push_str(" # café 中文 ünïcödé ;\n"); } else { out.push(' '); } }
+            4 => { if stmt_end || i % 7 == 3 { out.push_str(" # café 中文 ünïcödé ;\n"); } else { out.push(' '); } }
+            // 5..: lines longer than any excerpt limit, made of 2-, 3- and 4-byte characters, shifted byte by byte
+            _ => { if stmt_end || i % 5 == 2 { out.push_str(" # "); for _ in 0..(sep - 5) { out.push('a'); } for _ in 0..30 { out.push_str("é中😀"); } out.push('\n'); } else { out.push(' '); } }
         }
     }
     out
